@@ -14,7 +14,7 @@ import (
 func init() {
 	register(&Property{
 		ID:        "C19",
-		Explain:   "Absence of unsynchronised shared mutable state, decided for every schedule by dataflow over the SSA of the three packages. (1) Write-once globals: every package-level variable is stored only by package initialisation; no function stores through a pointer or slice derived from a global (element stores, copy/append destinations, in-module callees that write through a parameter are followed by a fixpoint summary, returned global pointers are followed to their uses); the only globals whose address reaches code outside the module are listed with the reason they are safe (sync.Pool-based pools, net.Dialer and tls.Config values that are only read). (2) The shared Default* values are used through value-receiver methods only. (3) Pool discipline: every Get of the byte, bufio and writer pools is matched by a Put of the same object that is deferred at once (or hands ownership to the caller, as Dialer.Upgrade documents for the bufio.Reader); the path-sensitive pairing and the 'no use after Put' order are decided by the folds of C02, C06, C08, C09 and C10. (4) Exactly one goroutine is started in the three packages (the dial watcher, whose protocol is C20). NOT decided: races inside math/rand, sync.Pool, crypto/tls (trusted); 'same results as running alone' beyond interference freedom. A pooled Writer is scrubbed by Reset (C18.writer-reset is part of this check); no handshake writes into its configuration (config-read-only); pooled objects are put back exactly once per path and nothing returned points into them (pooled-memory-escape). callback-errors-read-only: nothing is stored through an error value obtained by a type assertion (rejection errors are shared between connections). The two handshake decision tables run here as well: a pooled handshake buffer is put back once and nothing but the other Put follows a Put (values that point into the buffer - header values, results of the zero-copy selectors - are still in use until the response is written). returned-closures-read-only: a function value handed out by an exported constructor (SelectFromSlice, SelectEqual, the Rejection* options) stores nothing into what it captured - a cache filled on first use would be written by concurrent handshakes.",
+		Explain:   "Absence of unsynchronised shared mutable state, decided for every schedule by dataflow over the SSA of the three packages. (1) Write-once globals: every package-level variable is stored only by package initialisation; no function stores through a pointer or slice derived from a global (element stores, copy/append destinations, in-module callees that write through a parameter are followed by a fixpoint summary, returned global pointers are followed to their uses); the only globals whose address reaches code outside the module are listed with the reason they are safe (sync.Pool-based pools, net.Dialer and tls.Config values that are only read). (2) The shared Default* values are used through value-receiver methods only. (3) Pool discipline: every Get of the byte, bufio and writer pools is matched by a Put of the same object that is deferred at once (or hands ownership to the caller, as Dialer.Upgrade documents for the bufio.Reader); the path-sensitive pairing and the 'no use after Put' order are decided by the folds of C02, C06, C08, C09 and C10. (4) Exactly one goroutine is started in the three packages (the dial watcher, whose protocol is C20). NOT decided: races inside math/rand, sync.Pool, crypto/tls (trusted); 'same results as running alone' beyond interference freedom. A pooled Writer is scrubbed by Reset (C18.writer-reset is part of this check); no handshake writes into its configuration (config-read-only); pooled objects are put back exactly once per path and nothing returned points into them (pooled-memory-escape). callback-errors-read-only: nothing is stored through an error value obtained by a type assertion (rejection errors are shared between connections). The two handshake decision tables run here as well: a pooled handshake buffer is put back once and nothing but the other Put follows a Put (values that point into the buffer - header values, results of the zero-copy selectors - are still in use until the response is written). returned-closures-read-only: a function value handed out by an exported constructor (SelectFromSlice, SelectEqual, the Rejection* options) stores nothing into what it captured - a cache filled on first use would be written by concurrent handshakes. no-global-bytes-returned: no exported function returns a byte slice that lives in a package-level variable (callers mask and fill what the frame constructors return).",
 		Technique: "static analysis: def-use / base-object dataflow over go/ssa with fixpoint write-through-parameter summaries; who-may-spawn and pairing rules",
 		Trusted:   []string{"go/ssa + go/types", "sync.Pool, math/rand's global source, crypto/tls, net are goroutine safe"},
 		Run:       runC19,
